@@ -485,19 +485,19 @@ def grid_lines():
     return out
 
 
-def all_pairs_lines(rng, per_op):
-    """thorough tier: pairs from the boundary set, every operator, both families"""
+def all_pairs_lines(rng):
+    """thorough tier: ALL pairs of the boundary set for every operator (`value.<Op>Val`), a random half of them
+    through the `value.<Op>Ints` helpers as well"""
     out = []
-    vals = BOUNDARY
+    nrep = lambda v: ("s%d" if fits(v) else "b%d") % v
+    counts = [-200, -128, -65, -64, -63, -2, -1, 0, 1, 2, 31, 32, 62, 63, 64, 65, 127, 128, 200]
     for op in BIN_OPS:
-        for _ in range(per_op):
-            x, y = rng.choice(vals), rng.choice(vals)
-            if op in ("shl", "shr"):
-                y = rng.choice([-200, -128, -65, -64, -63, -1, 0, 1, 2, 31, 62, 63, 64, 65, 127, 128, 200])
-            if op == "pow":
-                y = rng.choice([0, 1, 2, 3, 31, 63, 64, 65])
-            fam = "val" if rng.random() < 0.6 else "ints"
-            out.append("int\t%s\t%s\t%s\t%s" % (fam, op, rep(x, rng, False), rep(y, rng, False)))
+        ys = counts if op in ("shl", "shr") else ([0, 1, 2, 3, 31, 63, 64, 65] if op == "pow" else BOUNDARY)
+        for x in BOUNDARY:
+            for y in ys:
+                out.append("int\tval\t%s\t%s\t%s" % (op, nrep(x), nrep(y)))
+                if rng.random() < 0.5:
+                    out.append("int\tints\t%s\t%s\t%s" % (op, nrep(x), nrep(y)))
     return out
 
 
@@ -515,7 +515,7 @@ def run(ctx):
     else:
         lines = vlib.corpus_lines("C06") + grid_lines() + [gen_line(ctx.rng) for _ in range(ctx.n(12000, 300000))]
         if not ctx.quick:
-            lines += all_pairs_lines(ctx.rng, 20000)
+            lines += all_pairs_lines(ctx.rng)
     for ln in lines:
         f = ln.split("\t")
         ctx.stat("op:" + f[2])
